@@ -498,7 +498,7 @@ func writeEvidence(id, tier string, cc checkCfg, m *ev.Shard, shards int, inconc
 		"seed":        ev.Seed(),
 		"level":       level,
 		"coverage":    cov,
-		"assumptions": m.Assumptions,
+		"assumptions": nonNil(m.Assumptions),
 		"wall_s":      wall.Seconds(),
 		"violations":  nviol,
 	}
@@ -563,4 +563,11 @@ func replay(id, file string) int {
 		return 2
 	}
 	return 0
+}
+
+func nonNil(s []string) []string {
+	if s == nil {
+		return []string{}
+	}
+	return s
 }
